@@ -176,6 +176,26 @@ def textshape_oracle(run):
     return out
 
 
+def outside_float_oracle(run):
+    """"refuses values outside the range": a value below 0 or above 100 is outside
+    the range whether or not it is an integer.  (What a non-integer INSIDE 0..100
+    should map to is not specified and not judged.)"""
+    cases = []
+    outs = ["-0.5", "-1e-09", "-0.999999", "100.5", "100.000001", "100.999999", "-1.5", "101.5", "1e308", "-1e308", "inf", "-inf", "nan"]
+    for sc, v2l, l2v in SCALES:
+        for x in outs:
+            cases.append({"scale": sc, "fn": v2l, "arg": {"py": "float", "v": x}})
+            cases.append({"scale": sc, "fn": v2l, "arg": {"py": "float", "v": x}, "kw": True})
+    got = common.run_impl("c20_impl", cases, procs=1)
+    run.coverage["outside_float_calls"] = len(cases)
+    out = []
+    for c, g in zip(cases, got):
+        if g != "ValueError":
+            out.append(Violation("%s(%s) is outside the range 0..100 but gives %s instead of being refused"
+                                 % (c["fn"], c["arg"]["v"], g), {"kind": "nonstring", "case": c, "impl": g}))
+    return out
+
+
 def keyword_oracle(run, cases, spec):
     """Every public call form of the same function is the same function: the
     argument given by keyword (under the name the function declares) must get
@@ -283,12 +303,13 @@ def check(run):
     run.violations += nonstring_oracle(run)
     run.violations += textshape_oracle(run)
     run.violations += keyword_oracle(run, cases, spec)
+    run.violations += outside_float_oracle(run)
     run.coverage["exhaustive"] = True
     run.coverage["trusted_base"] += [
         "translators/tr_scales.py (fail-closed AST translator; validated each run by the sweep above)",
         "coq/Spec/ConfidenceSpec.v: STIX 2.1 Appendix A tables written from memory (ranges audited; wep 'Unlikely/Probably Not'=30 seeded)",
     ]
-    run.assumptions += ["inputs to value_to_X are Python ints (the property quantifies over integers); floats/bools are out of scope"]
+    run.assumptions += ["inputs to value_to_X are Python ints (the property quantifies over integers); of non-integers only the refusal of values outside 0..100 is judged (oracle); bools are out of scope"]
 
 
 def replay(payload):
